@@ -31,12 +31,45 @@ RULES = {
 }
 
 
+# marker field path -> (name, discriminant) of the variant that holds the identity: ("Some", 1) for an Option, the payload variant
+# of a private two-variant enum that is an Option by another name (`enum RequestState { Idle, AwaitingReply(PeerIdentity) }`)
+PAYLOAD = {}
+
+
+def payload_variant(name):
+    return PAYLOAD.get(name, ("Some", 1))[0]
+
+
+def payload_discr(name):
+    return PAYLOAD.get(name, ("Some", 1))[1]
+
+
+def option_like_enum(f, ty):
+    """(payload variant, its discriminant) if `ty` names a crate-private enum with exactly two variants, one fieldless and one
+    holding exactly a PeerIdentity"""
+    for p2, a2 in f.adts.items():
+        nm = p2.split("::", 1)[1] if p2.startswith("zeromq::") else p2
+        if a2["kind"] == "Enum" and ty in (nm, p2) and len(a2["variants"]) == 2 and not a2.get("vis", "").startswith("Public"):
+            vs = a2["variants"]
+            empty = [v for v in vs if not v["fields"]]
+            full = [(i, v) for i, v in enumerate(vs) if len(v["fields"]) == 1 and "PeerIdentity" in v["fields"][0]["ty"]]
+            if len(empty) == 1 and len(full) == 1:
+                i, v = full[0]
+                return v["name"], (v["discr"] if v.get("discr") is not None else i)
+    return None
+
+
 def marker_field(f, ty_suffix):
     """field path (`name`, or `name.0` through a private newtype) of the socket's Option<PeerIdentity> marker, by type"""
     def is_opt_id(ty):
         return ty.startswith("std::option::Option<") and "PeerIdentity" in ty
     for p, a in f.adts.items():
         if names_type(p, ty_suffix):
+            for fl in a["variants"][0]["fields"]:
+                oe = option_like_enum(f, fl["ty"])
+                if oe is not None and not any(is_opt_id(x["ty"]) for x in a["variants"][0]["fields"]):
+                    PAYLOAD[fl["name"]] = oe
+                    return fl["name"]
             for fl in a["variants"][0]["fields"]:
                 if is_opt_id(fl["ty"]):
                     return fl["name"]
@@ -86,7 +119,7 @@ def is_marker_payload(x, name):
     """x IS the identity held in the marker (the Some payload of the marker field, possibly taken / cloned / borrowed),
     not merely something computed from it"""
     x = strip_view(x)
-    return isinstance(x, tuple) and x and x[0] == "field" and x[1][0] == "downcast" and x[1][2] == "Some" and is_marker(x[1][1], name)
+    return isinstance(x, tuple) and x and x[0] == "field" and x[1][0] == "downcast" and x[1][2] == payload_variant(name) and is_marker(x[1][1], name)
 
 
 def marker_decisions(p, name, upto=None):
@@ -99,7 +132,7 @@ def marker_decisions(p, name, upto=None):
             if t is not None:
                 out.append(t if short(e[1]) == "is_some" else (not t))
         elif e[0] == "discr" and c[0] == "eq" and is_marker(e[1], name):
-            out.append(c[1] == 1)
+            out.append(c[1] == payload_discr(name))
     return out
 
 
@@ -156,7 +189,7 @@ def run(ctx, f, rep):
                     wi, wev = ww[-1]
                     si, sev = st[-1]
                     v = sev.value
-                    some_id = v[0] == "agg" and v[3] == "Some"
+                    some_id = v[0] == "agg" and v[3] == payload_variant(mreq)
                     # the id stored is the one popped from the rotation and used for the lookup of the written entry
                     popped = pathq.mentions_call(v, lambda x: short(x[1]) == "pop" and "SegQueue" in x[1])
                     looked = lookup_call(wev.args[0])
@@ -235,7 +268,7 @@ def run(ctx, f, rep):
                 if len(st) == 1:
                     v = st[0].value
                     # Some(((item as Some).0).0) and the returned message comes from ((item as Some).0).1 of the same item
-                    key = v[4][0] if v[0] == "agg" and v[3] == "Some" and v[4] else None
+                    key = v[4][0] if v[0] == "agg" and v[3] == payload_variant(mrep) and v[4] else None
                     item_k = pathq.mentions_call(key, lambda x: short(x[1]) in ("poll", "poll_next")) if key is not None else None
                     item_m = pathq.mentions_call(p.ret, lambda x: short(x[1]) in ("poll", "poll_next"))
                     is_key = key is not None and key[0] == "field" and key[2] in (0, "0")
